@@ -118,7 +118,9 @@ func (c *ClientFingerprintConfiguration) WriteToConfig(config *Config) error {
 }
 
 func currentTimestamp() ([]byte, error) {
-	t := time.Now().Unix()
+	// gmt_unix_time is the 32-bit Unix time (RFC 5246, 7.4.1.2); writing the
+	// 64-bit value would put its (zero) high half into the ClientHello.
+	t := uint32(time.Now().Unix())
 	buf := new(bytes.Buffer)
 	err := binary.Write(buf, binary.BigEndian, t)
 	return buf.Bytes(), err
